@@ -484,6 +484,28 @@ def _eval_job(args) -> Tuple[str, Optional[str], int]:
                             if msg:
                                 return "bad", msg, n
             # recursion depth: a large all-zero border string must not exhaust the interpreter stack
+        elif kind == "reuse":
+            # the module-level combinators are singletons that decode many URLs in one process: one object, boards of different sizes
+            # in sequence; each result must be what a fresh object gives (no state carried from one decode to the next)
+            w = SerWorld(repo, "heyawake")
+            seq = [(1, 2, "0"), (2, 3, "000"), (1, 2, "g"), (3, 2, "g0g"), (2, 2, "00"), (1, 1, ""), (2, 3, "vv0")]
+            makers = {"Rooms()": lambda: w.new("Rooms"), "HEYAWAKE_COMBINATOR": lambda: w.constants["HEYAWAKE_COMBINATOR"]}
+            for cl, mk in makers.items():
+                shared = mk()
+                for (h, wd, text) in seq + seq[::-1]:
+                    n += 1
+                    st1, r1 = w.meth(shared, "deserialize", w.env(h, wd), text, 0)
+                    fresh = w.new("Rooms") if cl == "Rooms()" else None
+                    if fresh is None:
+                        w2 = SerWorld(repo, "heyawake")
+                        st2, r2 = w2.meth(w2.constants["HEYAWAKE_COMBINATOR"], "deserialize", w2.env(h, wd), text, 0)
+                    else:
+                        st2, r2 = w.meth(fresh, "deserialize", w.env(h, wd), text, 0)
+                    if st1 == "raise" and r1 != "ValueError":
+                        return "bad", f"{cl} reused across boards: decoding {text!r} on a {h}x{wd} board (after other sizes) raises {r1}", n
+                    if (st1, repr(r1)) != (st2, repr(r2)):
+                        return "bad", (f"{cl} reused across boards: decoding {text!r} on a {h}x{wd} board gives {st1} {r1!r} after decodes of other sizes, "
+                                       f"a fresh object gives {st2} {r2!r}"), n
         elif kind == "compass":
             w = SerWorld(repo, "compass")
             bodies = ["", "g", "1", "1.2", "1.23", "-1", "-1f.23", "z1.23", "....", "1.23k", "_", "٣...", "--1f...", "z1.23z1.23", "{", "-ff-10.0", "zz",
@@ -526,10 +548,12 @@ def evaluation(repo: Repo, rep: Report) -> None:
     for b in ("1x1", "1x3", "3x1", "2x2", "2x3"):
         jobs.append((repo.root, repo.overrides, "rooms", f"rooms-{b}", deep))
     jobs.append((repo.root, repo.overrides, "compass", "compass", deep))
+    jobs.append((repo.root, repo.overrides, "reuse", "one combinator, several board sizes", deep))
     with ProcessPoolExecutor(max_workers=16) as ex:
         results = list(ex.map(_eval_job, jobs))
     where = {"leaf": (SER, "deserialize"), "puzzle": (SER, "deserialize"), "url": (SER, "deserialize_problem_as_url"),
-             "rooms": (SER, "Rooms._deserialize"), "compass": ("cspuz/puzzle/compass.py", "parse_puzz_link_url")}
+             "rooms": (SER, "Rooms._deserialize"), "compass": ("cspuz/puzzle/compass.py", "parse_puzz_link_url"),
+             "reuse": (SER, "Rooms._deserialize")}
     for job, (st, msg, n) in zip(jobs, results):
         kind, label = job[2], job[3]
         if st == "ok":
